@@ -83,7 +83,7 @@ void chk_describe(FILE *f)
 static void check_queries(void)
 {
         int c = (int)rn(NCMD);
-        int t = chance(30) ? CAT_CMD_TYPE_NONE : (chance(50) ? CAT_CMD_TYPE_READ : CAT_CMD_TYPE_TEST);
+        int t = chance(30) ? CAT_CMD_TYPE_NONE : chance(12) ? (chance(50) ? CAT_CMD_TYPE_RUN : CAT_CMD_TYPE_WRITE) : (chance(50) ? CAT_CMD_TYPE_READ : CAT_CMD_TYPE_TEST);      /* RUN / WRITE events do not exist: never pending */
         bool b = cat_is_unsolicited_event_buffered(W.at, W.cmd[c], (cat_cmd_type)t) == CAT_STATUS_BUSY;
         if (b != model_buffered(c, t)) viol("C13", b ? "buffered-but-not-pending" : "pending-but-not-buffered", "cat_is_unsolicited_event_buffered(cmd#%d, type %d) = %s, model says %s", c, t, b ? "BUSY" : "OK", model_buffered(c, t) ? "pending" : "not pending");
         const struct cat_command *pc = cat_get_processed_command(W.at, CAT_FSM_TYPE_UNSOLICITED);
@@ -122,7 +122,7 @@ void chk_run_case(uint64_t seed, long c, bool is_sweep)
         arr[1].name = xstr("+H"); arr[1].read = h_read; arr[1].test = h_test; { struct cat_variable *v = w_vars(&arr[1], 1); v->type = CAT_VAR_UINT_DEC; uint8_t *d = w_vdata(v, 2); d[0] = 1; v->read = hv_read; }
         arr[2].name = xstr("+FAIL");                                                      /* READ fails at once, TEST prints "+FAIL=" */
         arr[3].name = xstr("+LONGNAMETHATDOESNOTFITINTHEEVENTBUFFERATALL0123456789"); arr[3].read = h_read;   /* never fits */
-        arr[4].name = xstr("+H2"); arr[4].read = h_read; arr[4].test = h_test;
+        arr[4].name = xstr("+H2"); arr[4].read = h_read; arr[4].test = h_test; arr[4].only_test = chance(50);      /* test-only restricts the request forms of command lines; an event of either type is processed like any other */
         arr[5].name = xstr("+HOLD"); arr[5].run = h_run;
         bool shared = chance(50);
         w_buffers(shared ? 64 + rn(2) : 48, shared, 24 + rn(16));
